@@ -87,10 +87,14 @@ TIE = {
     'chain': ['MalVerif.Py.TieNode', 'MalVerif.Py.TieGraph', 'MalVerif.Py.TieApriori', 'MalVerif.Py.TieEval',
               'MalVerif.Py.TieLink', 'MalVerif.PropsGen.C01', 'MalVerif.PropsGen.C08', 'MalVerif.PropsGen.C09',
               'MalVerif.PropsGen.C11', 'MalVerif.PropsGen.C12', 'MalVerif.PropsGen.C13',
-              'MalVerif.Py.TieAttach', 'MalVerif.PropsGen.C11_Attach'],
+              'MalVerif.Py.TieAttach', 'MalVerif.PropsGen.C11_Attach', 'MalVerif.Py.TieNodes', 'MalVerif.Py.TieRegen',
+              'MalVerif.PropsGen.C02', 'MalVerif.PropsGen.C01_Gen'],
     # which modules carry the claim of a property (its PropsGen file and what that imports)
     'needs': {
-        'C01': ['MalVerif.Py.TieEval', 'MalVerif.Py.TieLink', 'MalVerif.PropsGen.C01'],
+        'C01': ['MalVerif.Py.TieEval', 'MalVerif.Py.TieLink', 'MalVerif.PropsGen.C01', 'MalVerif.Py.TieNodes',
+                'MalVerif.Py.TieRegen', 'MalVerif.PropsGen.C01_Gen'],
+        'C02': ['MalVerif.Py.TieEval', 'MalVerif.Py.TieGraph', 'MalVerif.Py.TieLink', 'MalVerif.Py.TieNodes',
+                'MalVerif.PropsGen.C02'],
         'C08': ['MalVerif.Py.TieApriori', 'MalVerif.PropsGen.C08'],
         'C09': ['MalVerif.Py.TieNode', 'MalVerif.Py.TieGraph', 'MalVerif.PropsGen.C09'],
         'C11': ['MalVerif.Py.TieNode', 'MalVerif.PropsGen.C11', 'MalVerif.Py.TieGraph', 'MalVerif.Py.TieAttach',
@@ -100,7 +104,8 @@ TIE = {
     },
     # python functions whose translation a property's theorems are about (for the evidence file)
     'sources': {
-        'C01': 'attackgraph.py: _process_step_expression (the methods it calls on lang_graph / model are parameters: EvalEnv) and the linking loop (second loop) of _generate_graph',
+        'C01': 'attackgraph.py: _process_step_expression (the methods it calls on lang_graph / model are parameters: EvalEnv), the linking loop (second loop) of _generate_graph, the node-creation loop (first loop) and the whole of _generate_graph (with add_node, get_node_by_full_name, node.full_name)',
+        'C02': 'attackgraph.py: the node-creation loop (first loop) of _generate_graph with add_node, get_node_by_id, get_node_by_full_name, _process_step_expression; node.py: full_name (model.assets, lang_graph._get_attacks_for_asset_type and getattr(asset, defense) are parameters: EvalEnv)',
         'C08': 'analyzers/apriori.py: propagate_viability_from_node, propagate_necessity_from_node, _has_ttc_distribution, evaluate_viability, evaluate_necessity, evaluate_viability_and_necessity, calculate_viability_and_necessity',
         'C09': 'attackgraph.py: get_node_by_id, get_node_by_full_name, get_attacker_by_id, add_node, remove_node, add_attacker, remove_attacker; attacker.py: compromise, undo_compromise; node.py: full_name',
         'C11': 'attacker.py: compromise, undo_compromise; node.py: is_compromised, is_compromised_by, compromise, undo_compromise; attackgraph.py: attach_attackers (with add_attacker, get_node_by_full_name; model.attackers and their entry points are parameters: EvalEnv)',
